@@ -48,6 +48,7 @@ type Case struct {
 	P1           string                `json:"p1"`        // greedy | greedyrnd | dfs
 	P2           string                `json:"p2"`        // ns | lp
 	P4           string                `json:"p4"`        // sink | valign | packright | ns | bk | bk0..bk3
+	P3           string                `json:"p3,omitempty"` // "" (weighted median) | noop
 	P5           string                `json:"p5"`        // polyline | straight | ortho | splines | noop
 	SizeMode     string                `json:"size_mode"` // none | fixed | map | fixedmap
 	FixedW       float64               `json:"fixed_w"`
@@ -61,7 +62,7 @@ type Case struct {
 }
 
 func (c Case) Key() string {
-	return fmt.Sprintf("%v|%s|%s|%s|%s|%s|%v|%v|%v|%v|%v|%v|%d", c.Edges, c.P1, c.P2, c.P4, c.P5, c.SizeMode, c.FixedW, c.FixedH, sortedSizes(c.Sizes), c.NodeSpacing, c.LayerSpacing, c.VirtualOut, c.Thoroughness)
+	return fmt.Sprintf("%v|%s|%s|%s|%s|%s|%v|%v|%v|%v|%v|%v|%d", c.Edges, c.P1, c.P2+c.P3, c.P4, c.P5, c.SizeMode, c.FixedW, c.FixedH, sortedSizes(c.Sizes), c.NodeSpacing, c.LayerSpacing, c.VirtualOut, c.Thoroughness)
 }
 
 func sortedSizes(m map[string][2]float64) string {
@@ -417,6 +418,7 @@ type GenOpts struct {
 	P2          []string
 	P4          []string
 	P5          []string
+	P3Noop      int // per cent of the cases laid out with OrderingNoop
 	SizeModes   []string
 	VirtualOut  []bool
 	SpacingsPos bool // strictly positive spacings
@@ -501,6 +503,10 @@ func genCase(r *Rng, o GenOpts) Case {
 	c.P2 = o.P2[r.Intn(len(o.P2))]
 	c.P4 = o.P4[r.Intn(len(o.P4))]
 	c.P5 = o.P5[r.Intn(len(o.P5))]
+	// OrderingNoop: phase 3 keeps the order of the layering (it still breaks long edges and numbers positions)
+	if o.P3Noop > 0 && r.Bool(o.P3Noop) {
+		c.P3 = "noop"
+	}
 	if c.P4 == "ns" && len(c.Edges) > 36 {
 		// the NetworkSimplex positioner is known to need tens of seconds from about 90 edges (known finding of
 		// C01, class ns-positioner-slow): keep it to moderate sizes here
